@@ -552,6 +552,46 @@ def run_long_history(run: Run, tname, n):
                           % (first_t, len(items) - 1), inp, kind="wrong-composition")
 
 
+def run_reparse(run: Run, tname, n):
+    """(a) what a string denotes does not depend on what was done to the formula an earlier parse of the same
+    string returned (the caller owns that object: changing its density, extending it with +=);
+    (b) integer counts are exact however long they are (Python integers, not floats)"""
+    from periodictable.formulas import formula
+    ref, tbl, prefix = tables(tname)
+    rng = run.rng
+    for _ in range(n):
+        d = G.gen_compound(rng, ref, maxdepth=2, pb=0.0)
+        s = G.text_of(G.render_compound(d))
+        if rng.random() < 0.5:
+            s = s.split("@")[0] + "@" + rng.choice(["2.16", "1", "0.5n", "7.87"])
+        inp = dict(table=tname, string=s, stream="reparse")
+        run.count(key=(tname, "reparse", s), nontrivial=True, tag="%s:reparse" % tname)
+        try:
+            a = formula(s, table=tbl)
+        except Exception:  # noqa
+            continue
+        first = (G.struct_keys(a.structure), a.density)
+        a.density = 123.456
+        a += formula("Xe")
+        b = formula(s, table=tbl)
+        if b is a or (G.struct_keys(b.structure), b.density) != first:
+            run.violation("parsing the same string again after the first result was modified gives %s @ %r, the first "
+                          "parse gave %s @ %r" % (G.show_struct(G.struct_keys(b.structure)), b.density,
+                                                  G.show_struct(first[0]), first[1]), inp, kind="wrong-composition")
+    for big in (2 ** 53 + 1, 9007199254740993, 10 ** 17 + 3, 123456789012345678901, 2 ** 63 + 5):
+        for text, where in (("C%dH" % big, "element count"), ("%dCH" % big, "leading group count"),
+                            ("(CH)%d" % big, "group count")):
+            inp = dict(table=tname, string=text, stream="big-integer")
+            run.count(key=(tname, "big", text), nontrivial=True, tag="%s:big-integer" % tname)
+            p = G.py_parse(text, tbl)
+            if p[0] != "OK":
+                run.violation("a string of the documented grammar is rejected (%s)" % p[1], inp, kind="grammar-string-rejected")
+                continue
+            got = {G.key_of(x): c for x, c in p[2].atoms.items()}
+            if got.get((6, 0, 0)) != big:
+                run.violation("the %s %d is read as %r" % (where, big, got.get((6, 0, 0))), inp, kind="wrong-composition")
+
+
 def run_strict_blank(run: Run, tname, n):
     """D19: `count element+ BLANK element+ …` read strictly as the guide documents it (a blank
     separates groups exactly as '+' does); oracle = the same string with '+' for the blank, read by
@@ -630,6 +670,7 @@ def run(run: Run) -> int:
         tasks += [(run_mixture_chunk, ("public", 300)), (run_mixture_chunk, ("private", 150))]
         tasks += [(run_strict_blank, ("public", 40))]
         tasks += [(run_long_history, ("public", 3)), (run_long_history, ("private", 1))]
+        tasks += [(run_reparse, ("public", 150)), (run_reparse, ("private", 50))]
     else:
         tasks = [(run_chunk, ("public", 5000, 2000, 4000, 4 + i % 4, "full" if i == 0 else None)) for i in range(60)]
         tasks += [(run_chunk, ("private", 4000, 1600, 3000, 4 + i % 3, "full" if i == 0 else None)) for i in range(16)]
@@ -638,6 +679,7 @@ def run(run: Run) -> int:
         tasks += [(run_mixture_chunk, ("public", 4000)) for i in range(6)] + [(run_mixture_chunk, ("private", 2000)) for i in range(2)]
         tasks += [(run_strict_blank, ("public", 2000))]
         tasks += [(run_long_history, ("public", 40)), (run_long_history, ("private", 20))]
+        tasks += [(run_reparse, ("public", 4000)), (run_reparse, ("private", 1500))]
     G.run_chunks(run, tasks)
     run.exhaustive = False
     return run.finish(RULE, assumptions=[
